@@ -220,12 +220,14 @@ pub fn f_shape(thorough: bool) -> Vec<Unit> {
         gen_atoms_after(&base, &o2, o2.max_atoms, &mut vec![0], &mut 1, 0, &mut cur, &mut bodies2);
         for (body, bound) in bodies2 { push(body, &bound, "shape+front-binder", &mut units, &mut salt); }
     }
-    if thorough {
-        // three-clause bodies with variable arguments only (every binding pattern, every count 0-3 of dynamic clauses)
+    {
+        // three-clause bodies with variable arguments only (every binding pattern, every count 0-3 of dynamic clauses);
+        // quick tier: every 12th of them
         let o3 = ShapeOpts { max_atoms: 3, max_nonvar: 0, exprs: false, rels: vec![0, 1, 2], extras: false, all_heads: false };
         let mut bodies3 = vec![];
         gen_atoms(&base, &o3, 3, &mut vec![], &mut 0, 0, 0, &mut vec![], &mut bodies3);
-        for (body, bound) in bodies3 { if body.len() == 3 { push(body, &bound, "shape-3-clauses", &mut units, &mut salt); } }
+        let mut k = 0usize;
+        for (body, bound) in bodies3 { if body.len() == 3 { k += 1; if thorough || k % 12 == 0 { push(body, &bound, "shape-3-clauses", &mut units, &mut salt); } } }
     }
     units
 }
@@ -454,6 +456,15 @@ pub fn f_agg(thorough: bool) -> Vec<Unit> {
         rev.prog.rules.reverse();
         rev.label = "ascent-rules-reversed".into();
         u.variants.push(rev);
+        // constants in aggregate / negation arguments written as named constants of the enclosing module: an identifier
+        // that is not a variable of the rule is an expression, not a free column
+        let const_in_agg = u.prog.rules.iter().any(|r| r.body.iter().any(|b| matches!(b, BodyItem::Agg { args, .. } | BodyItem::Neg { args, .. } if args.iter().any(|a| matches!(a, Arg::Expr(Expr::Const(_)))))));
+        if const_in_agg {
+            let mut nc = u.variants[0].clone();
+            nc.flags.push("named-consts".into());
+            nc.label = "ascent-named-constants".into();
+            u.variants.push(nc);
+        }
         units.push(u);
     };
     for (sname, src, prod) in &sources {
